@@ -35,6 +35,9 @@ type vfTxn struct {
 	Ops    []vfOp `json:"ops"`
 	Commit bool   `json:"commit"`
 	Reopen bool   `json:"reopen"` // close and reopen the store after this transaction
+	// KeepHandles: bucket handles obtained in this transaction are kept and used again for later operations on the
+	// same path (and as parents when a deeper bucket is looked up), the way a caller holding buckets in variables does
+	KeepHandles bool `json:"keepHandles,omitempty"`
 }
 
 type vfProg struct {
@@ -227,8 +230,17 @@ func vfGenProg(t *rapid.T) vfProg {
 	for i := 0; i < n; i++ {
 		tx := vfTxn{Write: rapid.IntRange(0, 4).Draw(t, "w") != 0}
 		m := rapid.IntRange(1, 14).Draw(t, "nops")
+		tx.KeepHandles = rapid.IntRange(0, 2).Draw(t, "keepHandles") == 0
 		for j := 0; j < m; j++ {
-			tx.Ops = append(tx.Ops, vfGenOp(t, tx.Write, known))
+			op := vfGenOp(t, tx.Write, known)
+			tx.Ops = append(tx.Ops, op)
+			if tx.Write && op.K == "deleteBucket" && vfValidName(op.Name) && rapid.Bool().Draw(t, "recreate") {
+				// the bucket comes back under the same name in the same transaction and gets a key it may have had before
+				tx.Ops = append(tx.Ops, vfOp{K: "newBucket", Path: op.Path, Name: op.Name})
+				sub := append(append([]string(nil), op.Path...), op.Name)
+				tx.Ops = append(tx.Ops, vfOp{K: "put", Path: sub, Key: rapid.SampledFrom(vfKeys).Draw(t, "reKey"), Val: vfGenVal(t)})
+				*known = append(*known, sub)
+			}
 		}
 		tx.Commit = rapid.IntRange(0, 3).Draw(t, "commit") != 0
 		tx.Reopen = rapid.IntRange(0, 4).Draw(t, "reopen") == 0
@@ -242,6 +254,40 @@ func vfGenProg(t *rapid.T) vfProg {
 type vfTxLike interface {
 	TopLevelBucket(name string) db.Bucket
 	BucketNames() ([]string, error)
+}
+
+// vfResolveKept resolves like vfResolve but keeps every handle of the walk in cache and prefers kept handles.
+func vfResolveKept(tx vfTxLike, path []string, cache map[string]db.Bucket) db.Bucket {
+	if len(path) == 0 {
+		return nil
+	}
+	var b db.Bucket
+	for i := 1; i <= len(path); i++ {
+		key := strings.Join(path[:i], "\x00/")
+		if h, ok := cache[key]; ok && h != nil {
+			b = h
+			continue
+		}
+		if i == 1 {
+			b = tx.TopLevelBucket(path[0])
+		} else {
+			b = b.Bucket(path[i-1])
+		}
+		if b == nil {
+			return nil
+		}
+		cache[key] = b
+	}
+	return b
+}
+
+func vfDropKept(cache map[string]db.Bucket, path []string) {
+	prefix := strings.Join(path, "\x00/")
+	for k := range cache {
+		if k == prefix || strings.HasPrefix(k, prefix+"\x00/") {
+			delete(cache, k)
+		}
+	}
 }
 
 func vfResolve(tx vfTxLike, path []string) db.Bucket {
@@ -396,6 +442,10 @@ func vfC19Run(p vfProg, c *vlib.Ctx) *vlib.Failure {
 
 	for ti, txn := range p.Txns {
 		where := fmt.Sprintf("tx#%d", ti)
+		kept := map[string]db.Bucket{}
+		if txn.KeepHandles {
+			c.Label("handles-kept")
+		}
 		shadow := committed.clone()
 		var tx vfTxLike
 		var wtx db.DBTransaction
@@ -463,7 +513,11 @@ func vfC19Run(p vfProg, c *vlib.Ctx) *vlib.Failure {
 				var b db.Bucket
 				var mb *vfMB
 				if op.K != "topNames" {
-					b = vfResolve(tx, op.Path)
+					if txn.KeepHandles {
+						b = vfResolveKept(tx, op.Path, kept)
+					} else {
+						b = vfResolve(tx, op.Path)
+					}
 					mb = shadow.resolve(op.Path)
 					if (b == nil) != (mb == nil) {
 						return fail(vlib.Failf("resolve-mismatch", "%s: store bucket present=%v, model present=%v", w, b != nil, mb != nil))
@@ -519,6 +573,7 @@ func vfC19Run(p vfProg, c *vlib.Ctx) *vlib.Failure {
 					if err != nil {
 						return fail(vlib.Failf("err-mismatch:deleteBucket", "%s: unexpected err=%v", w, err))
 					}
+					vfDropKept(kept, append(append([]string(nil), op.Path...), op.Name))
 					if vfValidName(op.Name) && mb.subs[op.Name] != nil {
 						delete(mb.subs, op.Name)
 						sawDeleteOrClear = true
@@ -674,7 +729,7 @@ func vfC19Run(p vfProg, c *vlib.Ctx) *vlib.Failure {
 
 var vfC19Spec = vlib.Spec[vfProg]{
 	Prop: "C19", Name: "store-vs-model",
-	Rule: "programs of 1-8 read/write transactions (1-14 ops each, commit/rollback, optional reopen) over nested buckets with adversarial names/keys; non-trivial = (sibling buckets sharing a name prefix AND a delete-bucket/clear of non-empty content) OR a key imitating the internal layout (contains the separator); distinct = distinct program JSON",
+	Rule: "programs of 1-8 read/write transactions (1-14 ops each, commit/rollback, optional reopen) over nested buckets with adversarial names/keys; in a third of the transactions bucket handles are kept and reused (also as parents of deeper lookups); half of the bucket deletions are followed in the same transaction by a bucket of the same name and a put; non-trivial = (sibling buckets sharing a name prefix AND a delete-bucket/clear of non-empty content) OR a key imitating the internal layout (contains the separator); distinct = distinct program JSON",
 	Gen:  vfGenProg, Run: vfC19Run,
 }
 
